@@ -17,6 +17,7 @@ ANN = [('# hello world', True, 'hello world'), ('// slashes', True, 'slashes'), 
        ('#/etc/app conf', True, '/etc/app conf'), ('//#42 hash', True, '#42 hash'), ('# open /* only', True, 'open /* only'),
        ('/*\n  boxed\n*/', False, 'boxed'), ('/*\n * star line\n */', False, '* star line'), ('# cr\r', True, 'cr'), ('/*\ttabbed\t*/', False, 'tabbed'),
        ('# ' + 'a long annotation ' * 3, True, ('a long annotation ' * 3).strip()), ('/* ' + 'w' * 33 + ' */', False, 'w' * 33),
+       ('# ends a C comment */ early', True, 'ends a C comment */ early'), ('// a */', True, 'a */'), ('# */', True, '*/'),
        ('#', True, None), ('//', True, None), ('/**/', False, None), ('/* */', False, None), ('###', True, None)]
 RULE = ('grammar-derived accepted texts and token-mutated rejected texts x every token boundary (also inside lists, after =, between section name/title and {, '
         'inside call arguments) x %d inserted forms (#x //x /*x*/ multi-line, empty and marker-only comments, blanks, newlines), annotation support on and off: '
@@ -230,7 +231,7 @@ def judge(spec, events, death):
                       '(the comment reached another option as well, or changed a value); text %r' % (txt, toks[k][1], insert(toks, k, (txt, nl))[:300]))
                 continue
             out = unhx(printed['out'])
-            if ('/* %s */' % body) not in out:
+            if ('/* %s */' % body) not in out and not ('*/' in body and ('# %s\n' % body) in out):
                 v.bad('annotation:not-printed', 'annotation %r missing from the print %r' % (body, out[:200]))
             elif rp['rc'] != 0:
                 v.bad('annotation:print-rejected', 'print with annotation %r is rejected on re-parse' % body)
